@@ -2,6 +2,6 @@ P('C09', shards=16,
   technique='property-based testing (rapid) over generated struct types (reflect.StructOf) x per-field source masks; oracle: round trip by construction of typed values through the priority lattice',
   text='For generated struct types (all nine field kinds, nested structs, both tag syntaxes, empty tags) every field independently gets a subset of the four sources (tag default, JSON via -config file or CFG_CONFIG_B64 or both, '
        'CFG_* environment variable, command-line flag in all spellings incl. repeats) with typed values (extremes, NaN/Inf, arbitrary strings, empty text); after Parse the field must hold the value of the highest-priority mentioning source, '
-       'and Lookup(name).Env must be the documented CFG_ name. In a third of the cases the struct still holds arbitrary values of an earlier round. The built-in -help flag is mentioned on a third of the command lines (all spellings, any position, repeated): it must decide ShowUsage() and nothing else. Evidence carries the coverage matrix kind x source mask x {top,nested}. Exploration, not proof.',
+       'and Lookup(name).Env must be the documented CFG_ name. Positional tails include value-looking tokens (false, 0, 5s). In a third of the cases the struct still holds arbitrary values of an earlier round. The built-in -help flag is mentioned on a third of the command lines (all spellings, any position, repeated): it must decide ShowUsage() and nothing else. Evidence carries the coverage matrix kind x source mask x {top,nested}. Exploration, not proof.',
   note='Trusts the canonical formatters (strconv, Duration.String, base64) as inverse of the documented parsers; base-prefixed numerals are not generated.',
   design='3/C09')
